@@ -19,6 +19,11 @@ SPLIT_NOTE = ("Trusted: TLC/SANY, CommunityModules, CPython, wave, the recorder 
               "input slice by the projection). Durations live on a 0.1 ms grid; analysis windows whose float product with the rate is "
               "ambiguous (O1) are not generated; per-window validity is taken from the logged validator (independent of C07).")
 
+WORKERS_NOTE = ("Trusted: TLC/SANY, CPython threading, the controller harness/sched.py (controlled queue, start/join/is_alive wrappers). "
+                "The OS scheduler is replaced by the controller: preemption BETWEEN two scheduling points is not explored (all shared state "
+                "of workers.py is behind the queues or thread-local between two points; Thread.is_alive is made a scheduling point). "
+                "Liveness under weak fairness of non-timeout steps. The CLI Ctrl-C handler itself is exercised by C15's runs, not here.")
+
 CHECKS = {
     "C01": dict(
         text="TLC proves C01 on the implementation-shaped Tokenizer spec for every parameter tuple x validity stream of the tier "
@@ -90,6 +95,29 @@ CHECKS = {
              "sweeps at realistic rates) against SourceTrace with TLC.",
         ref="DESIGN.md 5/C11", technique="TLA+ model checking (TLC) + one implementation test per model transition + trace validation",
         note=READER_NOTE + " read(0), sub-sample negative instants and non-dyadic position_s values are not generated (O3-O5); stdin is a BytesIO-backed sys.stdin."),
+    "C12": dict(
+        text="Workers.tla models workers.py at scheduling-point granularity (every Queue put/get/get_nowait, source read, Thread start/"
+             "begin/join) on top of the tokenizer core; TLC explores every interleaving, timeout firing and stop point of the tier "
+             "configurations: C12Safe, deadlock freedom, Termination (<>[]AllDone under weak fairness). The REAL threads run under a "
+             "controller that replaces auditok.workers.Queue and Worker.start/join/is_alive: TLC -simulate behaviours are followed step "
+             "by step (leg R) and seeded schedule policies explore larger inputs (leg T); every run is judged by TLC on WorkersObs "
+             "(monitors on the observed end state: ids 1..n in order for every observer, detections = segmentation of the blocks read, "
+             "all threads ended) and WorkersTrace (step conformance).",
+        ref="DESIGN.md 5/C12, 3.3, 4.3", technique="TLA+ model checking incl. liveness (TLC) + schedule replay into real threads + trace validation",
+        note=WORKERS_NOTE),
+    "C13": dict(
+        text="Same model and controller: C13Safe (saved file is a prefix of the blocks read, equal and closed at the end, any cache "
+             "threshold); observed runs with StreamSaverWorker (cache thresholds 0..inf), AudioEventsJoinerWorker (joined file = events "
+             "separated by round(silence*rate) zero samples), RegionSaverWorker (file names from the template, audio = detection) and "
+             "PrintWorker are projected and judged by TLC on WorkersObs.",
+        ref="DESIGN.md 5/C13", technique="TLA+ model checking (TLC) + schedule replay into real threads + trace validation", note=WORKERS_NOTE),
+    "C14": dict(
+        text="The stop request (stop_all) is enabled in every running state of the model (exhaustive over the crash point and all "
+             "subsequent interleavings): C14Safe (detections = segmentation of exactly the blocks read, as if the stream had ended there), "
+             "termination. On the real threads the stop is injected at EVERY step index of base schedules (fault enumeration) plus "
+             "random points; monitors: observers' logs, saved file = blocks read and valid wav, all threads ended.",
+        ref="DESIGN.md 5/C14", technique="TLA+ model checking incl. liveness (TLC) + systematic stop injection into controlled real threads + trace validation",
+        note=WORKERS_NOTE, cat="model_checking"),
     "C19": dict(
         text="Same Reader spec: invariants C19 (recorded data = consumed prefix, each sample once, never beyond max_read) and C19Replay "
              "(blocks after a rewind replay those before it); data before the first rewind and data/rewind on non-recording readers "
